@@ -574,9 +574,11 @@ func (r *resolver) resolveRef(rs *Resolved, s *Schema, ref string) (_ *Schema, d
 			if err != nil {
 				return nil, "", fmt.Errorf("loading %s: %w", fraglessRefURI, err)
 			}
-			// Check if referenced schema has $schema defined. If not it should inherit the resolved
+			// Check if referenced schema has $schema defined. If not it should inherit
+			// the draft of the referring document, which its root declares (s may be a
+			// subschema, whose own Schema field is normally empty).
 			if ls.Schema == "" {
-				ls.Schema = s.Schema
+				ls.Schema = rs.root.Schema
 			}
 			lrs, err := r.resolve(ls, fraglessRefURI)
 			if err != nil {
